@@ -11,7 +11,9 @@ DT = {"s": "SLU_S", "d": "SLU_D", "c": "SLU_C", "z": "SLU_Z"}
 
 def store_roots(it, ins):
     """roots of the value written by a store (or copied by an llvm.memcpy treated as a store), complex .r/.i parts merged"""
-    if ins.op == "call":
+    if ins.op == "summ-store":
+        rs = set(ins.roots)
+    elif ins.op == "call":
         src = it.val(ins.ops[1])
         rs = {fmt_path(src[1], it.f)} if src and src[0] == "p" else {"?"}
     else:
@@ -458,6 +460,23 @@ def _x_sites(mod, prec, f):
                 if p[:1] == (("A", kX),) and len(p) >= 5 and p[3][0] == "f" and p[3][2] == "nzval":
                     xs.append(c)
     x_scale = [s for s in xs if s.op == "store" and any(any(q[:1] == (("A", kX),) for q in f.addr_paths(l)) for l in expr_loads(f, s.ops[0]))]
+    # scaling / copy loops moved into a static leaf helper: the call stands for the stores (summary of the helper's parameter-rooted stores)
+    from ..summ import store_summary
+    def _is_nz(paths, k):
+        return any(p[:1] == (("A", k),) and len(p) >= 4 and p[3][0] == "f" and p[3][2] == "nzval" for p in paths)
+    for c in f.insts():
+        if c.op != "call" or c.callee not in mod.funcs:
+            continue
+        for (k, sfx, roots, unknown) in (store_summary(mod, mod.funcs[c.callee]) or []):
+            if k >= len(c.ops):
+                continue
+            tp = f.paths(c.ops[k])
+            if _is_nz(tp, kX):
+                xs.append(c)
+                if any(k2 < len(c.ops) and sfx2 and _is_nz(f.paths(c.ops[k2]), kX) for (k2, sfx2) in roots):
+                    x_scale.append(c)
+            if _is_nz(tp, kB) and c not in bs:
+                bs.append(c)
     x_copy = [s for s in xs if s not in x_scale]
     return {"x_scale": x_scale, "x_copy": x_copy, "b_scale": bs,
             "gstrs": list(f.calls("%sgstrs" % prec)), "gsrfs": list(f.calls("%sgsrfs" % prec)), "langs": list(f.calls("%slangs" % prec)),
